@@ -1,5 +1,6 @@
 """Run one shard of one property:  python -m vr.worker <Cnn> <tier> <seed> <shard> <nshards> <outfile> [deadline_s]"""
 import faulthandler
+import os
 import importlib
 import json
 import sys
@@ -14,6 +15,12 @@ def main(argv):
         # watchdog: dump stacks shortly before the orchestrator would kill us
         faulthandler.dump_traceback_later(budget + 20, exit=False)
     from . import env, core
+    cov = None
+    if os.environ.get("VERIF_COVERAGE"):
+        # diagnostic only (tools/coverage.sh): which lines of the tree under test the workloads reach
+        import coverage
+        cov = coverage.Coverage(data_file=os.path.join(os.environ["VERIF_COVERAGE"], f".coverage.{prop}.{shard}"), include=[os.path.join(env.REPO, "src", "bits", "*")])
+        cov.start()
     env.bind()
     from . import contracts
     contracts.install(prop)
@@ -21,6 +28,9 @@ def main(argv):
     deadline = time.time() + budget if budget else None
     res = core.run_shard(mod, tier, seed, shard, nshards, deadline=deadline)
     res["contracts"] = contracts.snapshot()
+    if cov is not None:
+        cov.stop()
+        cov.save()
     with open(out, "w") as f:
         json.dump(res, f)
 
